@@ -69,6 +69,32 @@ Theorem C11_clear_is_init : forall s tr, Full s -> fst (clear s tr) = 0 ->
   (tr = false -> first_cfg s (snd (clear s tr)) (IW_ROUNDUP (hdrlen s) (aunit s)) (bmlen s)).
 Proof. exact clear_full. Qed.
 Print Assumptions C11_clear_is_init.
+(* conservation across a FAILED call (7b9f72c: solid space the file cannot be extended for is given back): the configuration is
+   unchanged, the state is good and every block is allocated or free exactly as before.  _partial: requests that may not extend
+   the bitmap; with growth a doubling that succeeded before the failure has legitimately moved the bitmap - what is kept there is
+   [Full] and [Grown] (C10_alloc_fresh).  [given_back] / [na_outcome] (Fsm_proofs.v) are the outcome shapes of the allocation lemmas *)
+Theorem C11_failed_allocate_conserves_partial : forall s L hint opts ovr, Good s -> 0 < L ->
+  has opts IWFSM_ALLOC_NO_EXTEND = true -> fx_solid (vr s) = true ->
+  let '(rc, s', off, olen) := blk_allocate s L hint opts ovr in
+  rc <> 0 -> rc <> IWFS_ERROR_NOT_MMAPED ->
+  Good s' /\ same_cfg s s' /\ forall i, 0 <= i < nbits s -> getb (bm s') i = getb (bm s) i.
+Proof. exact failed_allocate_conserves_partial. Qed.
+Print Assumptions C11_failed_allocate_conserves_partial.
+Theorem C11_failed_allocate_conserves_refuted : exists v s, fx_solid v = false /\ vr s = v /\
+  (let r := allocate s 131072 0 (IWFSM_SOLID_ALLOCATED_SPACE + IWFSM_ALLOC_NO_STATS + IWFSM_ALLOC_NO_OVERALLOCATE) false in
+   rc_of r = FSM_E_MAXOFF /\ getb (bm s) 128 = false /\ getb (bm (state_of r)) 128 = true /\ tree (state_of r) = [(62, 2); (30592, 2176)]).
+Proof. exact failed_allocate_conserves_refuted. Qed.
+Print Assumptions C11_failed_allocate_conserves_refuted.
+Example C11_failed_allocate_conserves_fixed :
+  let s := snd (open_new_max v_fixed 6 0 0 65536 false) in
+  let r := allocate s 131072 0 (IWFSM_SOLID_ALLOCATED_SPACE + IWFSM_ALLOC_NO_STATS + IWFSM_ALLOC_NO_OVERALLOCATE) false in
+  rc_of r = FSM_E_MAXOFF /\ getb (bm (state_of r)) 128 = false /\ tree (state_of r) = tree s /\ tree s = [(62, 2); (32640, 128)].
+Proof. exact failed_allocate_conserves_fixed. Qed.
+(* the region given back: the state predicate of every reachable state holds again *)
+Theorem C11_given_back_keeps : forall s s' off n, Full s -> given_back s s' off n -> HS s' -> Full s'.
+Proof. exact full_given_back. Qed.
+Print Assumptions C11_given_back_keeps.
+
 Theorem C11_close_reopen_keeps : forall s nt st mm, Full s -> Full (reopen (snd (close s nt)) st mm).
 Proof. intros s nt st mm H. apply reopen_full. apply close_full. exact H. Qed.
 Print Assumptions C11_close_reopen_keeps.
